@@ -339,7 +339,7 @@ impl Prop for C09 {
         .unwrap()
     }
     fn rule(&self) -> String {
-        "AL: 1-6 rules with overlapping regexes (shared prefixes, classes, escapes of all kinds, alternation, repetition), 0-3 inclusive/exclusive start states, <S1,S2> prefixes, push/pop/replace targets, regex flags in a %grmtools section, top-level alternations with and without parentheses; 6 inputs each sampled from the rules' ASTs plus unmatchable characters and multi-byte text. Two construction paths: .l text through from_str, and Rule::new + from_rules (duplicate names possible). Ids through set_rule_ids (for every other case after an earlier call with a map giving every name another id) and set_rule_ids_spanned with a map that misses some lexer names and has names the lexer lacks. Oracle: naive lexer (position loop, plain Vec state stack, regex crate built from the AST): same lexemes (id,start,len), same single error position; tiling; exact missing-name sets. Evaluation = one (spec,input,path). Non-trivial: >=2 active rules matched at some position, or a state operation executed, or a multi-byte character preceded a match; distinct by hash(spec,input).".into()
+        "AL: 1-6 rules with overlapping regexes (shared prefixes, classes, escapes of all kinds, alternation, repetition), 0-3 inclusive/exclusive start states, <S1,S2> prefixes, push/pop/replace targets, regex flags in a %grmtools section, top-level alternations with and without parentheses; 6 inputs each sampled from the rules' ASTs plus unmatchable characters and multi-byte text. Two construction paths: .l text through from_str, and Rule::new + from_rules (duplicate names possible). Ids through set_rule_ids (for every other case after an earlier call with a map giving every name another id) and set_rule_ids_spanned with a map that misses some lexer names and has names the lexer lacks. The look-ups get_rule / get_rule_by_name / get_rule_by_id are compared with the rule list. Oracle: naive lexer (position loop, plain Vec state stack, regex crate built from the AST): same lexemes (id,start,len), same single error position; tiling; exact missing-name sets. Evaluation = one (spec,input,path). Non-trivial: >=2 active rules matched at some position, or a state operation executed, or a multi-byte character preceded a match; distinct by hash(spec,input).".into()
     }
     fn assumptions(&self) -> Vec<String> {
         vec![
@@ -439,6 +439,44 @@ impl Prop for C09 {
                     "C09/set_rule_ids/missing-sets",
                     format!("returned ({mfl:?}, {mfp:?}), expected (names without a rule {exp_missing_from_lexer:?}, rule names without an id {exp_missing_from_parser:?})\n{src}"),
                 );
+                return o;
+            }
+        }
+        // the documented look-ups agree with the rule list: by index, by name (the first rule of
+        // that name), by token id (the first rule with that id)
+        {
+            let rules: Vec<_> = def.iter_rules().collect();
+            let same = |a: &Rule<u32>, b: &Rule<u32>| a.name() == b.name() && a.name_span() == b.name_span() && a.re_str() == b.re_str() && a.tok_id() == b.tok_id();
+            for (i, r) in rules.iter().enumerate() {
+                let by_idx = def.get_rule(i).map(|x| same(x, r)).unwrap_or(false);
+                let by_name = match r.name() {
+                    Some(n) => {
+                        let first = rules.iter().find(|x| x.name() == Some(n)).unwrap();
+                        def.get_rule_by_name(n).map(|x| same(x, first)).unwrap_or(false)
+                    }
+                    None => true,
+                };
+                let by_id = match r.tok_id() {
+                    Some(id) => {
+                        let first = rules.iter().find(|x| x.tok_id() == Some(id)).unwrap();
+                        match catch(|| same(def.get_rule_by_id(id), first)) {
+                            Ok(b) => b,
+                            Err(_) => false,
+                        }
+                    }
+                    None => true,
+                };
+                if !(by_idx && by_name && by_id) {
+                    o.fail(
+                        "wrong",
+                        "C09/rule-lookup",
+                        format!("rule {i} ({:?}, id {:?}): get_rule agrees: {by_idx}, get_rule_by_name agrees: {by_name}, get_rule_by_id agrees: {by_id}\n{src}", r.name(), r.tok_id()),
+                    );
+                    return o;
+                }
+            }
+            if def.get_rule(rules.len()).is_some() || def.get_rule_by_name("NO_SUCH_RULE_NAME").is_some() {
+                o.fail("wrong", "C09/rule-lookup", format!("a rule is returned for an index past the end or for a name no rule has\n{src}"));
                 return o;
             }
         }
